@@ -91,3 +91,25 @@ func NumberToString(x float64) string {
 	}
 	return strconv.FormatFloat(x, 'f', -1, 64)
 }
+
+// RoundForCompare equals Round except possibly in the sign of a zero result:
+// round-half-away-from-zero corrected for ties below zero, which round toward
+// positive infinity. It exists because solvers decide goals over this form
+// much faster than over the floor-based definition; the equivalence
+// Round(x) == RoundForCompare(x) (IEEE ==, or both NaN) for every double is an
+// obligation of its own (c06.RunRoundLemma).
+func RoundForCompare(x float64) float64 {
+	r := math.Round(x)
+	if x < 0 && IsTie(x) {
+		r = r + 1
+	}
+	return r
+}
+
+// IsTie: x lies exactly halfway between two integers (2x is an odd integer).
+// x-floor(x) == 0.5 is not an exact test: for x = -0.49999999999999994 the
+// subtraction rounds to 0.5 (found by the solver on the first formulation).
+func IsTie(x float64) bool {
+	d := x + x
+	return nd.And(d == math.Floor(d), x != math.Floor(x))
+}
